@@ -1,4 +1,5 @@
 import Gv.Proofs.BagRect3
+import Gv.Props.C13
 /-!
 C01, operations whose row-level model lives in another property's model (`ReverseComplement` C06,
 `ReplaceChar`, `RemoveGapSites` C12, `Compress` C13): writing sequences back into the rows keeps ids,
@@ -282,5 +283,45 @@ theorem rect_removeGapSites (test : Nat → Nat → Bool) (ends : Bool) {b : Bag
       unfold removeCharacterSites
       rw [if_pos (by omega)]
       exact this
+
+/-! ### `Compress` (through the C13 model) -/
+
+theorem compressBag_fields {b : Bag} {r : Bag × List Nat} (h : compressBag b = some r) :
+    keys r.1.rows = keys b.rows ∧ r.1.index = b.index ∧ r.1.next = b.next ∧ r.1.isAlign = b.isAlign ∧
+    r.1.alphabet = b.alphabet ∧ r.1.policy = b.policy := by
+  unfold compressBag at h
+  split at h
+  · simp at h
+  · simp only [Option.some.injEq] at h; subst h
+    refine ⟨keys_withSeqs _ _ (length_of_names ?_), rfl, rfl, rfl, rfl, rfl⟩
+    rw [(Gv.Props.C13.compress_spec (pairs b) b.length).1, pairs_names]
+
+theorem inv_compressBag (b : Bag) (h : Inv b) (r : Bag × List Nat) (hr : compressBag b = some r) : Inv r.1 := by
+  obtain ⟨k, i, n, _⟩ := compressBag_fields hr
+  exact h.transfer (by rw [k]) i (by omega)
+
+/-- compressing an alignment that has sequences leaves it rectangular: every row gets one residue per
+pattern and the cached length is the number of patterns -/
+theorem rect_compressBag {b : Bag} (hne : b.rows ≠ []) (r : Bag × List Nat) (hr : compressBag b = some r) :
+    Rect r.1 := by
+  unfold compressBag at hr
+  split at hr
+  · simp at hr
+  · simp only [Option.some.injEq] at hr; subst hr
+    have hspec := Gv.Props.C13.compress_spec (pairs b) b.length
+    have hl := length_of_names (hspec.1.trans (pairs_names b))
+    constructor
+    · intro _ x hx
+      simp only [] at hx ⊢
+      have hseq : x.seq ∈ (compress (pairs b) b.length).1.map Prod.snd := by
+        rw [← seqs_withSeqs _ _ hl]; exact List.mem_map_of_mem (f := (·.seq)) hx
+      obtain ⟨p, hp, e⟩ := List.mem_map.mp hseq
+      rw [← e]
+      exact hspec.2.1 p hp
+    · intro _ he
+      simp only [] at he
+      have := withSeqs_length b.rows _ hl
+      rw [he] at this
+      exact absurd (List.eq_nil_of_length_eq_zero this.symm) hne
 
 end Gv.Proofs.BagAbs
